@@ -88,6 +88,16 @@ int sut_guard_op(int gt, int op, void *a, void *b, SimMutex *m) {
 	try { return sut_guard_op_inner(gt, op, a, b, m); } catch (int) { return -77; } // the mutex's lock() threw
 }
 
+// behavioural layout probe for the "aged lock" knob: a fresh ticket lock after one uncontended lock()/unlock() pair must look
+// like two 32-bit counters that both advanced to 1 — only then may a run start from counters just below the wrap-around
+int sut_ticket_layout_ok() {
+	if (sizeof(frg::ticket_spinlock) != 8) return 0;
+	alignas(8) unsigned char buf[8]; auto l = new (buf) frg::ticket_spinlock();
+	l->lock(); l->unlock();
+	unsigned int w[2]; __builtin_memcpy(w, buf, 8);
+	return w[0] == 1 && w[1] == 1;
+}
+
 void sut_mutex_construct(void *mem) { new (mem) ThrowingMutex(); }
 
 } // extern "C"
